@@ -358,6 +358,9 @@ class FakeSnowflakeCursor:
             schema = table.db or self._conn.schema
             assert catalog and schema
             self._duck_conn.execute(info_schema.insert_table_comment_sql(catalog, schema, table.name, comment))
+            if result_sql is None:
+                # COMMENT ON / ALTER TABLE SET COMMENT: the result is the status row, not the insert's count
+                result_sql = SQL_SUCCESS
 
         if (text_lengths := cast(list[tuple[str, int]], transformed.args.get("text_lengths"))) and (
             table := transformed.find(exp.Table)
